@@ -2,6 +2,9 @@
 // real code: src/paged_reader.rs  (default configuration: cargo feature crc32c off)
 use vstd::prelude::*;
 verus! {
+//@nopub
+//@include ioerr.rs
+//@include dev.rs
 //@include page_r_body.rs
 } // verus!
 fn main() {}
